@@ -131,7 +131,7 @@ def check(run):
         if src['const'] and not rejected:
             run.fail('%s on a constant (%s) is accepted: %r' % (fname, src['name'], stmt), dict(source=src['name'], form=fname, xml=xml), shape='const-written:%s:%s' % (src['name'].split(':')[0], fname))
         if not src['const'] and rejected:
-            mism.append(dict(source=src['name'], form=fname, stmt=stmt, note='the same operation on a mutable object is rejected', errors=errs[:2]))
+            run.fail('%s on a mutable object (%s) is rejected: %r (%s)' % (fname, src['name'], stmt, errs[0] if errs else ''), dict(source=src['name'], form=fname, xml=xml, errors=errs[:2]), shape='mutable-rejected:%s:%s' % (src['name'].split(':')[0], fname))
     if mism:
         run.tie_broken('constness model / mutable twins vs type checker', mism[:8] + [dict(total=len(mism))])
     run.cov.update(evaluations=len(cases), distinct_nontrivial=len(cases), traces_validated_against_impl=len(cases), exhaustive=True,
